@@ -99,6 +99,7 @@ def sampling_case(draw, method=None):
     prog, _ = gen.limit_loss(prog, 2)
     modes, loss, hp = gen.dims(prog)
     nv = prog["n"] - gen.count_heralds(prog)
+    prog = gen.cap_herald_photons(prog, cap=1500)
     nph = gen.fit_photons(prog, draw(st.sampled_from([0, 1, 2, 2, 3])), cap=1500)
     if modes > 6:
         nph = min(nph, 1)
